@@ -31,7 +31,7 @@ type view struct {
 	name  string
 	st    kvstore.KVStore
 	rawSt kvstore.KVStore // conc: the un-wrapped mapdb view underneath st
-	realm string // model: the realm this view prepends and strips
+	realm string          // model: the realm this view prepends and strips
 	depth int
 	desc  string
 }
@@ -42,11 +42,12 @@ type bop struct {
 }
 
 type sbatch struct {
-	id   int
-	v    *view
-	b    kvstore.BatchedMutations
-	ops  map[string]bop // model: last operation per (stripped) key
-	bufs [][]byte       // caller buffers handed to batch.Set / batch.Delete
+	id               int
+	v                *view
+	b                kvstore.BatchedMutations
+	ops              map[string]bop // model: last operation per (stripped) key
+	mixed, cancelled bool
+	bufs             [][]byte // caller buffers handed to batch.Set / batch.Delete
 }
 
 type seqWorld struct {
@@ -411,6 +412,9 @@ func (w *seqWorld) step() {
 				s.Fail("contract", "batch.Set-error", "batch.Set on %s failed: %v", b.v.name, err)
 			}
 			if err == nil {
+				if o, ok := b.ops[string(k)]; ok && o.del {
+					b.mixed = true
+				}
 				b.ops[string(k)] = bop{val: val}
 			}
 		} else {
@@ -420,6 +424,9 @@ func (w *seqWorld) step() {
 				s.Fail("contract", "batch.Delete-error", "batch.Delete on %s failed: %v", b.v.name, err)
 			}
 			if err == nil {
+				if o, ok := b.ops[string(k)]; ok && !o.del {
+					b.mixed = true
+				}
 				b.ops[string(k)] = bop{del: true}
 			}
 		}
@@ -432,6 +439,15 @@ func (w *seqWorld) step() {
 		s.Logf("b%d(%s).Commit() -> %v", b.id, b.v.name, err)
 		if !w.open("Commit", b.v, err) {
 			return
+		}
+		if b.mixed {
+			s.Probe("commit-set-and-delete-of-one-key")
+		}
+		if b.cancelled && len(b.ops) > 0 {
+			s.Probe("commit-after-cancel")
+		}
+		if len(w.batches) > 0 {
+			s.Probe("commit-while-second-batch-open")
 		}
 		for k, o := range b.ops {
 			if o.del {
@@ -454,6 +470,9 @@ func (w *seqWorld) step() {
 		b := w.batches[s.Choose(len(w.batches))]
 		b.b.Cancel()
 		s.Logf("b%d(%s).Cancel()", b.id, b.v.name)
+		if len(b.ops) > 0 {
+			b.cancelled = true
+		}
 		b.ops = map[string]bop{}
 		w.check("Cancel")
 	}
@@ -523,6 +542,18 @@ func (w *seqWorld) iterate(v *view, keysOnly bool) {
 	if !eqEntries(got, want) {
 		s.Fail("contract", name+"-entries", "%s.%s(%q, %s, stop after %d) (%s, realm %q) reported %s, the ordered map gives %s", v.name, name, p, dirName(given, back), limit, v.desc, v.realm, fmtEntries(got), fmtEntries(want))
 	}
+	if len(p) > 0 && len(got) > 0 {
+		full := v.realm + string(p)
+		for _, u := range w.views {
+			if len(u.realm) > len(v.realm) && (strings.HasPrefix(u.realm, full) || strings.HasPrefix(full, u.realm)) {
+				s.Probe("iteration-prefix-reaches-into-longer-realm")
+				break
+			}
+		}
+	}
+	if limit > 0 && len(got) == limit {
+		s.Probe("consumer-stopped-iteration")
+	}
 	if scrib && len(got) > 0 {
 		s.Fault("mutate-returned-value")
 		s.Logf("scribbled over every key/value handed to the consumer")
@@ -558,6 +589,7 @@ func (w *seqWorld) sweepClosed() {
 		w.open("Flush", v, v.st.Flush())
 	}
 	for _, b := range w.batches {
+		s.Probe("commit-of-pending-batch-after-close")
 		w.open("Commit", b.v, b.b.Commit())
 	}
 	s.Logf("closed sweep over %d views and %d pending batches: every call failed with ErrStoreClosed", len(w.views), len(w.batches))
